@@ -10,6 +10,7 @@ import Oas3Model.Driver.Graph
 import Oas3Model.Driver.Registry
 import Oas3Model.Driver.Cli
 import Oas3Model.Driver.Defaults
+import Oas3Model.Driver.Enum
 open Lean Oas3.Driver
 
 def allOps : List (String × Handler) := List.flatten [
@@ -24,6 +25,7 @@ def allOps : List (String × Handler) := List.flatten [
   Oas3.Driver.Registry.ops,
   Oas3.Driver.Cli.ops,
   Oas3.Driver.Defaults.ops,
+  Oas3.Driver.Enum.ops,
   []]
 
 def handleLine (line : String) : String :=
